@@ -82,6 +82,19 @@ CLAIMED = {
         note="HTTP parsers abstracted to symbols, one request per connection in the model, no timeouts / socket errors / "
              "thread-per-connection; internal-thread modes and second-thread resume by canonical projection + oracle.",
         design="DESIGN.md §3 C11", technique="Lean 4 proof (simulation / conservation laws) + behavioural guard probes + real-daemon correspondence + log oracle"),
+    "C12": dict(
+        engine="dauth",
+        text="Lean 4 theorems over a model of digest_auth_check_all_inner and its six public entry points, composed with C13 (nonce table), "
+             "C14 (header parser) and C16 (hashes): the result class is a function of the meaning of the credential (`expectedClass`, "
+             "clauses in the code's order); OK <=> RFC 7616/2617/2069-valid within the 65535-byte limits, for every request and header "
+             "bytes; rendering independence; every single-field mutation rejected; replay rejected on every reachable nonce table; no "
+             "write beyond hash1_bin/tmp1 for every input (false before fix F24); no client-triggered MHD_PANIC (false before F25). Tie: "
+             "regenerated constants; real daemon whose handler calls check3 / check_digest3 / the four legacy wrappers under a virtual "
+             "clock with nonces issued by the real code; random credentials x 3 algorithms x qop x username notation x bind options x "
+             "~20 labelled mutations x nc window edges; independent RFC oracle with hashlib.",
+        note="malloc failure and pool exhaustion not modelled; the request's GET argument list is a model input (recomputed by driver and "
+             "oracle, printed by the harness); SHA-512/256 composition carries C16's size_t hypothesis; no unforgeability claim.",
+        design="DESIGN.md §3 C12", technique="Lean 4 proof (composition of C13/C14/C16 models) + regenerated constants + real-daemon correspondence + RFC oracle"),
     "C13": dict(
         engine="nonce",
         text="Lean 4 proof over a model of digestauth.c's nonce-nc map, any table size, any sequence of registrations and presentations "
